@@ -936,12 +936,92 @@ func LoopHeaders(fn *ssa.Function) []*ssa.BasicBlock {
 	for _, b := range fn.Blocks {
 		for _, p := range b.Preds {
 			if b.Dominates(p) {
-				hs = append(hs, b)
+				if atomicSpinExit(b) == nil {
+					hs = append(hs, b)
+				}
 				break
 			}
 		}
 	}
 	return hs
+}
+
+var spinExitCache sync.Map // *ssa.BasicBlock -> *ssa.BasicBlock (nil entry = not a spin loop)
+
+// atomicSpinExit: h heads a compare-and-swap loop of a counter or gauge - `for { cur := g.Load(); if x <= cur ||
+// g.CompareAndSwap(cur, x) { break } }`: nothing is carried round the loop, its blocks hold nothing but sync/atomic
+// calls, loads, arithmetic, comparisons and branches, no value computed inside is used after it, and it leaves
+// through one block. Such a loop is bookkeeping: it is no loop of the analysed protocol (no cut point) and is
+// stepped over. Returns the block the loop leaves to, nil when h is not such a loop.
+func atomicSpinExit(h *ssa.BasicBlock) *ssa.BasicBlock {
+	if v, ok := spinExitCache.Load(h); ok {
+		e, _ := v.(*ssa.BasicBlock)
+		return e
+	}
+	res := func() *ssa.BasicBlock {
+		isLoopHead := false
+		for _, p := range h.Preds {
+			if h.Dominates(p) {
+				isLoopHead = true
+			}
+		}
+		if !isLoopHead {
+			return nil
+		}
+		lb := LoopBlocks(h)
+		if len(lb) > 6 {
+			return nil
+		}
+		var exit *ssa.BasicBlock
+		nAtomic := 0
+		for b := range lb {
+			for _, in := range b.Instrs {
+				switch x := in.(type) {
+				case *ssa.Phi:
+					return nil
+				case *ssa.If, *ssa.Jump, *ssa.DebugRef, *ssa.BinOp, *ssa.Convert, *ssa.ChangeType, *ssa.FieldAddr, *ssa.IndexAddr:
+				case *ssa.UnOp:
+					if x.Op == token.ARROW {
+						return nil
+					}
+				case *ssa.Call:
+					sc := x.Call.StaticCallee()
+					if sc == nil || sc.Pkg == nil || sc.Pkg.Pkg.Path() != "sync/atomic" {
+						return nil
+					}
+					nAtomic++
+				default:
+					return nil
+				}
+				if v, isV := in.(ssa.Value); isV && v.Referrers() != nil {
+					for _, r := range *v.Referrers() {
+						if r.Block() != nil && !lb[r.Block()] {
+							return nil
+						}
+					}
+				}
+			}
+			for _, sc := range b.Succs {
+				if !lb[sc] {
+					if exit != nil && exit != sc {
+						return nil
+					}
+					exit = sc
+				}
+			}
+		}
+		if exit == nil || nAtomic == 0 {
+			return nil
+		}
+		if len(exit.Instrs) > 0 {
+			if _, isPhi := exit.Instrs[0].(*ssa.Phi); isPhi {
+				return nil
+			}
+		}
+		return exit
+	}()
+	spinExitCache.Store(h, res)
+	return res
 }
 
 // LoopBlocks returns the natural loop of header h.
@@ -1624,6 +1704,10 @@ func (ex *explorer) run(st *State, blk *ssa.BasicBlock, idx int, prev *ssa.Basic
 		}
 		f := st.top()
 		if idx == 0 {
+			if e := atomicSpinExit(blk); e != nil {
+				prev, blk = blk, e // a compare-and-swap loop of a counter: stepped over
+				continue
+			}
 			if ex.isHdr[blk] && !first && !ex.tableLoop(st, blk, prev) {
 				// reached a cut point
 				p := &Path{To: blk, PhiOut: map[*ssa.Phi]*Term{}}
@@ -2402,8 +2486,15 @@ func (ex *explorer) doCall(st *State, in ssa.Instruction, c *ssa.CallCommon, val
 	}
 	// a validation helper that loops over its arguments (`nonNil(n, a == nil, b == nil, ...)`): it either panics or
 	// returns, and touches nothing; like the single-condition assertion helper it is taken as never firing
-	if fn != nil && isAssertionHelper(fn) && HasLoop(fn) && !ex.canInlineAt(st, fn, site) {
+	if fn != nil && isAssertionHelper(fn) && HasLoop(fn) {
 		ex.an.noteAssumed(in)
+		bind(&Term{Op: "tuple"})
+		return false
+	}
+	// a bookkeeping helper that loops (a compare-and-swap loop raising a high-water mark): nothing but sync/atomic
+	// operations, message formatting and calls of a hook that is never installed - no event, and its loop is not a
+	// loop of the protocol its caller implements
+	if fn != nil && HasLoop(fn) && isBookkeepingHelper(fn, 0) {
 		bind(&Term{Op: "tuple"})
 		return false
 	}
@@ -2806,6 +2897,107 @@ func rootNilArgument(st *State) bool {
 			continue
 		}
 		if v, ok := st.facts[atom.Key()]; ok && v == pol {
+			return true
+		}
+	}
+	return false
+}
+
+
+var bookkeepingCache sync.Map // *ssa.Function -> bool
+
+// isBookkeepingHelper: an unexported function without results whose body only counts: sync/atomic operations,
+// formatting (fmt, strconv, strings), len/cap, calls of functions of the same kind, and calls through a package-level
+// hook variable that nothing ever assigns. No store outside its own frame, no channel operation, no goroutine, no
+// defer, no panic.
+func isBookkeepingHelper(fn *ssa.Function, depth int) bool {
+	if fn == nil || depth > 2 || fn.Signature.Results().Len() != 0 || len(fn.Blocks) == 0 || len(fn.Blocks) > 30 {
+		return false
+	}
+	if fn.Object() == nil || fn.Object().Exported() {
+		return false
+	}
+	if v, hit := bookkeepingCache.Load(fn); hit {
+		return v.(bool)
+	}
+	bookkeepingCache.Store(fn, false) // recursion guard
+	res := func() bool {
+		for _, b := range fn.Blocks {
+			for _, in := range b.Instrs {
+				switch in := in.(type) {
+				case *ssa.Send, *ssa.Go, *ssa.Defer, *ssa.MapUpdate, *ssa.Select, *ssa.Panic, *ssa.RunDefers:
+					return false
+				case *ssa.Store:
+					// spilling into its own frame only
+					root := in.Addr
+					for {
+						switch x := root.(type) {
+						case *ssa.IndexAddr:
+							root = x.X
+							continue
+						case *ssa.FieldAddr:
+							root = x.X
+							continue
+						}
+						break
+					}
+					if al, ok := root.(*ssa.Alloc); !ok || al.Heap {
+						return false
+					}
+				case *ssa.UnOp:
+					if in.Op == token.ARROW {
+						return false
+					}
+				case *ssa.Call:
+					if bi, isB := in.Call.Value.(*ssa.Builtin); isB {
+						if bi.Name() == "len" || bi.Name() == "cap" {
+							continue
+						}
+						return false
+					}
+					if in.Call.IsInvoke() {
+						return false
+					}
+					if callee := in.Call.StaticCallee(); callee != nil {
+						if callee.Pkg != nil {
+							switch callee.Pkg.Pkg.Path() {
+							case "sync/atomic", "fmt", "strconv", "strings":
+								continue
+							}
+						}
+						o := callee
+						if o.Origin() != nil {
+							o = o.Origin()
+						}
+						if o.Pkg == fn.Pkg && isBookkeepingHelper(resolveBody(o), depth+1) {
+							continue
+						}
+						return false
+					}
+					// a call through a hook variable that is never assigned
+					if ld, isLd := in.Call.Value.(*ssa.UnOp); isLd && ld.Op == token.MUL {
+						if g, isG := ld.X.(*ssa.Global); isG && immutableGlobal(g) && !globalEverStored(g) {
+							continue
+						}
+					}
+					return false
+				}
+			}
+		}
+		return true
+	}()
+	bookkeepingCache.Store(fn, res)
+	return res
+}
+
+
+// InAtomicSpinLoop: b belongs to a compare-and-swap loop of a counter (see atomicSpinExit).
+func InAtomicSpinLoop(b *ssa.BasicBlock) bool {
+	if b == nil || b.Parent() == nil {
+		return false
+	}
+	for _, h := range b.Parent().Blocks {
+		if atomicSpinExit(h) != nil && LoopBlocks(h)[b] {
 			return true
 		}
 	}
